@@ -489,6 +489,10 @@ type sysListServer struct {
 	slows    map[string]sysSlow
 	pathHits map[string]int
 	cutOnce  map[string]bool
+	// cutThen is what a path serves after its cut-once response.
+	cutThen map[string][]byte
+	// RangeServed counts responses to byte-range requests.
+	RangeServed atomic.Int64
 	// CutServed counts responses that were cut short on purpose.
 	CutServed atomic.Int64
 	// SlowServed counts trickled responses sent completely.
@@ -498,7 +502,7 @@ type sysListServer struct {
 }
 
 func sysStartListServer() (ls *sysListServer, err error) {
-	ls = &sysListServer{lists: map[string][]byte{}, cuts: map[string]int{}, slows: map[string]sysSlow{}, pathHits: map[string]int{}, cutOnce: map[string]bool{}}
+	ls = &sysListServer{lists: map[string][]byte{}, cuts: map[string]int{}, slows: map[string]sysSlow{}, pathHits: map[string]int{}, cutOnce: map[string]bool{}, cutThen: map[string][]byte{}}
 	for attempt := 0; attempt < 8; attempt++ {
 		ls.Port = verifkit.FreePort()
 		ln, e := net.Listen("tcp4", fmt.Sprintf("127.0.0.1:%d", ls.Port))
@@ -534,11 +538,16 @@ func sysStartListServer() (ls *sysListServer, err error) {
 					// Only this response is cut; the next request succeeds.
 					delete(ls.cuts, r.URL.Path)
 					delete(ls.cutOnce, r.URL.Path)
+					if then, okThen := ls.cutThen[r.URL.Path]; okThen {
+						// The list is republished before the next request.
+						ls.lists[r.URL.Path] = then
+						delete(ls.cutThen, r.URL.Path)
+					}
 				}
 				ls.mu.Unlock()
 				if hj, hok := w.(http.Hijacker); hok {
 					if conn, buf, herr := hj.Hijack(); herr == nil {
-						_, _ = fmt.Fprintf(buf, "HTTP/1.1 200 OK\r\nContent-Type: text/plain\r\nContent-Length: %d\r\n\r\n", len(b))
+						_, _ = fmt.Fprintf(buf, "HTTP/1.1 200 OK\r\nContent-Type: text/plain\r\nAccept-Ranges: bytes\r\nContent-Length: %d\r\n\r\n", len(b))
 						_, _ = buf.Write(b[:min(cut, len(b))])
 						_ = buf.Flush()
 						_ = conn.Close()
@@ -548,6 +557,21 @@ func sysStartListServer() (ls *sysListServer, err error) {
 				}
 			}
 			w.Header().Set("Content-Type", "text/plain")
+			w.Header().Set("Accept-Ranges", "bytes")
+			if rg := r.Header.Get("Range"); strings.HasPrefix(rg, "bytes=") && strings.HasSuffix(rg, "-") {
+				// A byte-range request (a client resuming a broken transfer)
+				// is honoured, as static file servers and CDNs do.
+				var off int
+				if _, perr := fmt.Sscanf(rg, "bytes=%d-", &off); perr == nil && off >= 0 && off < len(b) {
+					ls.RangeServed.Add(1)
+					w.Header().Set("Content-Range", fmt.Sprintf("bytes %d-%d/%d", off, len(b)-1, len(b)))
+					w.Header().Set("Content-Length", fmt.Sprint(len(b)-off))
+					w.WriteHeader(http.StatusPartialContent)
+					_, _ = w.Write(b[off:])
+
+					return
+				}
+			}
 			ls.mu.Lock()
 			slow, isSlow := ls.slows[r.URL.Path]
 			ls.mu.Unlock()
@@ -635,6 +659,17 @@ func (ls *sysListServer) SetCutOnce(path string, content []byte, n int) {
 	ls.lists[path] = content
 	ls.cuts[path] = n
 	ls.cutOnce[path] = true
+	ls.mu.Unlock()
+}
+
+// SetCutOnceThen is SetCutOnce with the list republished (then) before the next
+// request.
+func (ls *sysListServer) SetCutOnceThen(path string, content []byte, n int, then []byte) {
+	ls.mu.Lock()
+	ls.lists[path] = content
+	ls.cuts[path] = n
+	ls.cutOnce[path] = true
+	ls.cutThen[path] = then
 	ls.mu.Unlock()
 }
 
